@@ -339,7 +339,7 @@ def wrappers(run, prog, db):
         for t in ((True, False), (False, True)):
             out.append(('TickTock', f'TickTock{t}', it.construct(prog.cls('TickTock'), [K(t[0]), K(t[1])], {}), 'TickTock', ['tick', 'tock']))
         for grams in (0, 1, (1 << 120) - 1):
-            for extra in ({}, {5: 1, 9: (1 << 248) - 1}, {0: 1, (1 << 31) - 1: 2, 1 << 31: 3, (1 << 32) - 1: 4}):       # ids are 32-bit unsigned keys
+            for extra in ({}, {5: 1, 9: (1 << 248) - 1}, {0: 1, (1 << 31) - 1: 2, 1 << 31: 3, (1 << 32) - 1: 4}, {7: 0}, {7: 0, 9: 3}):       # ids are 32-bit unsigned keys; an amount of 0 is an entry like any other
                 d = DictV()
                 for k, v in extra.items():
                     d.d[k] = K(v)
@@ -393,11 +393,16 @@ def wrappers(run, prog, db):
         cname, tag, inst, tname, fields, *targs = cases(it)[idx]
         where = prog.where(prog.method(cname, 'serialize'))
         try:
+            # what the object holds BEFORE it is serialised is what must come back (a serialiser that tidies the caller's containers in
+            # place would otherwise be compared with its own leftovers)
+            given = getattr(inst, 'given', {})
+            held = {f: attr_key(it, given.get(f, inst.attrs.get(f))) for f in fields}
+            ka_held = sorted((k, attr_key(it, v)) for k, v in inst.attrs['other'].attrs['dict'].d.items()) if cname == 'CurrencyCollection' else None
             cell = cm.call_method(it, inst, 'serialize')
             out = decode(it, db, cell, tname, targs[0] if targs else [])
             back = it.call(it.getattr(prog.cls(cname), 'deserialize'), [cm.call_method(it, cell, 'begin_parse')], {})
-            given = getattr(inst, 'given', {})
-            diffs = [f for f in fields if attr_key(it, given.get(f, inst.attrs.get(f))) != attr_key(it, back.attrs.get(f) if isinstance(back, Inst) else None)]
+            diffs = [f for f in fields if held[f] != attr_key(it, back.attrs.get(f) if isinstance(back, Inst) else None)]
+            diffs += [f'{f} (changed by serialize itself)' for f in fields if held[f] != attr_key(it, given.get(f, inst.attrs.get(f)))]
             if cname == 'HighloadWalletData':
                 want_q = inst.attrs.get('old_queries')
                 got_q = back.attrs.get('old_queries') if isinstance(back, Inst) else None
@@ -413,10 +418,12 @@ def wrappers(run, prog, db):
                             diffs.append(f'old_queries[{k_}]')
             if cname == 'CurrencyCollection':
                 da, db_ = inst.attrs['other'].attrs['dict'], back.attrs['other'].attrs['dict']
-                ka = sorted((k, attr_key(it, v)) for k, v in da.d.items())
+                ka = ka_held
                 kb = sorted((k, attr_key(it, v)) for k, v in db_.d.items()) if isinstance(db_, DictV) else []
                 if ka != kb:
-                    diffs.append('other.dict')
+                    diffs.append(f'other.dict (held {ka}, read back {kb})'[:160])
+                if sorted((k, attr_key(it, v)) for k, v in da.d.items()) != ka:
+                    diffs.append('other.dict (the caller\'s dictionary was changed by serialize)')
             ok = not diffs
             why = 'decoded per schema: ' + '; '.join(f'{p}={vrepr(v)[:18] if not isinstance(v, tuple) else v[0]}' for p, v in flat(out)[:5]) + '; parsed back equal' if ok else f'fields differ after the round trip: {diffs}'
         except Mismatch as e:
